@@ -24,6 +24,8 @@ ASSUMPTIONS = [
     "vf/ref/p2p_ref.py framing decoder is the specification of the wire format",
 ]
 OBLIGATIONS = {
+    "interrupted_calls": "interruption points explored (msg_ser / a receive cut short by an asynchronous exception, then the other operations)",
+    "concurrent_calls": "interleavings of two concurrent msg_ser / receive calls",
     "received_after_rejection": "fragmentations explored in which the caller went on receiving after a checksum-corrupt message was rejected",
     "history_sequences": "operation sequences (non-initial process states) explored",
     "short_read_header": "a recv inside the 24-byte header was answered with fewer bytes than asked",
@@ -132,8 +134,22 @@ class Sock:
         self.off += j
         return data
 
+    def recv_into(self, buf, nbytes=0, *a):
+        d = self.recv(nbytes or len(buf))
+        buf[:len(d)] = d
+        return len(d)
+
     def close(self):
         pass
+
+    def fileno(self):
+        return 7          # successive connections get the same descriptor number (POSIX hands out the lowest free one)
+
+    def settimeout(self, t):
+        pass
+
+    def gettimeout(self):
+        return 5.0
 
 
 RAISED = ("<raised>",)
@@ -414,13 +430,48 @@ def chk_codec(case):
     return out
 
 
-CASES = {"schedule": chk_schedule, "codec": chk_codec, "repeat": lambda case: chk_repeat(case)}
+def chk_timeout(case):
+    """environment answer: the socket's timeout fires in the middle of a message (`after` bytes were delivered, then recv raises
+    TimeoutError).  The caller gives the connection up.  No oracle of its own: it is history for the receives that follow on NEW
+    connections, which get the same descriptor number."""
+    p2p = _p2p()
+    stream = bytes.fromhex(case["stream"])
+    saved = p2p.MAGIC_START_BYTES
+    p2p.MAGIC_START_BYTES = bytes.fromhex(case["magic"])
+
+    class TSock(Sock):
+        def recv(self_, k, *a):
+            if self_.off >= case["after"]:
+                raise TimeoutError("timed out")
+            d = stream[self_.off:min(self_.off + k, case["after"])]
+            self_.off += len(d)
+            return d
+    sock = TSock(stream, policy=POLICIES["whole"](0))
+    try:
+        for _ in range(4):
+            try:
+                p2p.recv_msg(sock)
+            except Exception:
+                break
+    finally:
+        p2p.MAGIC_START_BYTES = saved
+    del sock
+    return []
+
+
+CASES = {"schedule": chk_schedule, "codec": chk_codec, "repeat": lambda case: chk_repeat(case), "timeout": chk_timeout}
 
 
 def run_case(kind, case):
     if kind == "seq":
         from vf import seqexplore
         return seqexplore.replay(run_case, case)
+    if kind == "interrupted":
+        from vf import seqexplore
+        return seqexplore.replay_interrupted(run_case, case)
+    if kind == "concurcase":
+        from vf import concur
+        return concur.replay_cases(run_case, PROPERTY, case, SER_FILES)
     return CASES[kind](case)
 
 
@@ -443,6 +494,9 @@ def seq_ops(job):
     ops.append(("codec", {"type": "version", "start_height": 1, "recv_port": 2, "trans_port": 3, "protocol_version": 60002, "services": 1,
                           "relay": True, "timestamp": 5}))
     ops.append(("codec", {"type": "ping", "nonce": 77}))
+    # the socket timeout fires mid-message (inside the header / inside the payload / after one whole message), connection given up
+    for after in (5, 30, len(A["ping"]) + 24 + 10):
+        ops.append(("timeout", {"stream": good.hex(), "magic": magic, "after": after}))
     if job.get("part") == "seq":
         # two different payloads with the same 4-byte checksum, received one after the other and in one stream
         from vf.classes import truncated_digest_collision
@@ -453,6 +507,20 @@ def seq_ops(job):
         ops += [("schedule", {"stream": fx.hex(), "magic": magic, "policy": "whole"}), ("schedule", {"stream": fy.hex(), "magic": magic, "policy": "whole"}),
                 ("schedule", {"stream": (fx + fy + fx).hex(), "magic": magic, "policy": "bytewise"})]
     return ops
+
+
+def ser_ops(job):
+    """the sending side (msg_ser) with different payloads, and a receive: a small alphabet for interrupted calls and two threads"""
+    A = alphabet(job["seed"])
+    magic = MAGIC["mainnet"].hex()
+    return [("codec", {"type": "msg_ser", "command": "ping", "size": 8, "magic": magic}), ("codec", {"type": "msg_ser", "command": "inv", "size": 37, "magic": magic}),
+            ("codec", {"type": "msg_ser", "command": "ping", "size": 9, "magic": magic}), ("codec", {"type": "msg_ser", "command": "verack", "size": 0, "magic": magic}),
+            ("schedule", {"stream": (A["ping"] + A["inv"]).hex(), "magic": magic, "policy": "chunk7"}),
+            ("codec", {"type": "ping", "nonce": 2 ** 63 + 5}), ("codec", {"type": "inv", "count": 2, "type_id": "msg_tx"})]
+
+
+SER_FILES = ("bits/p2p.py", "bits/crypto.py", "bits/utils.py")
+SER_SCEN = [((0, 1), ()), ((1, 2), (0,)), ((0, 4), (1,))]
 
 
 # ---------------------------------------------------------------- jobs
@@ -481,6 +549,10 @@ def jobs(tier, seed):
     js.append({"name": "codec", "part": "codec", "weight": 10})
     from vf.runner import seq_jobs
     js += seq_jobs(4, weight=4)
+    from vf.runner import interrupt_jobs
+    js += interrupt_jobs(3, weight=4)
+    for i in range(len(SER_SCEN)):
+        js.append({"name": f"concurrent/{i}", "part": "concurcase", "idx": i, "curve": None, "deep": True, "weight": 5})
     return js
 
 
@@ -555,6 +627,15 @@ def run_job(job):
     if job["part"] == "seq":
         from vf.runner import run_seq_job
         return run_seq_job(job, seq_ops(job), run_case)
+    if job["part"] == "interrupted":
+        from vf.runner import run_interrupt_job
+        ops = ser_ops(job)
+        return run_interrupt_job(job, [ops[1], ops[2], ops[4]], ops, run_case, SER_FILES)
+    if job["part"] == "concurcase":
+        from vf.runner import run_concur_job
+        ops = ser_ops(job)
+        scens = [{"threads": [ops[i] for i in sc[0]], "warm": [ops[i] for i in sc[1]]} for sc in SER_SCEN]
+        return run_concur_job(job, scens, run_case, PROPERTY, SER_FILES, alphabet=ops)
     acc = Acc(job)
     TIER["tier"] = job["tier"]
     TIER["deadline"] = time.time() + (120 if job["tier"] == "quick" else 3600)     # per-job wall budget (reported as a cap)
